@@ -66,6 +66,20 @@ let () = serve (fun fn req ->
        | "sub_timelock" -> sresult_json (parse_sub SubTimeLock s)
        | "sub_multi_sig" -> sresult_json (parse_sub SubMultiSig s)
        | k -> raise (Model_error ("unknown kind " ^ k)))
+  | "frame" -> of_bytes (frame (jbytes (jfield req "s")))
+  | "unframe" ->
+      (match unframe (jbytes (jfield req "w")) with
+       | Some (s, rest) -> JObj [("s", of_bytes s); ("rest", of_bytes rest)]
+       | None -> JObj [("error", JStr "reader-failed")])
+  | "tx_view" ->
+      let dec d = (match oracle1 "purchase_decodes" d with [] -> false | _ -> true) in
+      let jt = function
+        | JClaimCreate -> "claim/create" | JClaimUpdate -> "claim/update" | JSupport -> "support"
+        | JData -> "data" | JPurchase -> "purchase" | JPayment -> "payment" in
+      of_list (function
+        | Some ((t, r), sp) -> JObj [("type", of_option (fun x -> JStr (jt x)) t); ("row_type", of_n r); ("spendable", of_bool sp)]
+        | None -> JNull)
+        (tx_view dec (SL.map jbytes (jlist (jfield req "scripts"))))
   | "generate" ->
       let t = tname_of_string (jstr (jfield req "template")) in
       let vs = match jfield req "values" with
